@@ -20,6 +20,9 @@ func main() {
 	warm := flag.Bool("warm", false, "load all rule roots once to warm the Go build cache")
 	explain := flag.String("explain", "", "print a stored violation file")
 	flag.Parse()
+	// go/packages resolves the `go` command through the process PATH.
+	os.Setenv("PATH", "/opt/veriftools/go1.26.8/bin:"+os.Getenv("PATH"))
+	os.Setenv("GOTOOLCHAIN", "local")
 
 	if *explain != "" {
 		b, err := os.ReadFile(*explain)
